@@ -1,7 +1,8 @@
 #!/bin/bash
-# Runs every hand-written mutant in /verif/mutants against its check(s) (quick tier) and writes mutants/RESULTS.tsv.
+# Runs every hand-written mutant in mutants/ against its check(s) (quick tier) and writes mutants/RESULTS.tsv.
 # Mapping: Cxx-*.diff -> check Cxx; revert-fix-* -> the checks listed below.
-cd /verif || exit 1
+V="$(cd "$(dirname "$0")/.." && pwd)"  # the /verif tree this script belongs to (a committed snapshot under vp run)
+cd "$V" || exit 1
 declare -A MAP=(
  [revert-fix-Da-healthy-before-rotation]="C02" [revert-fix-Db-lb-successor]="C02 C03 C07" [revert-fix-Dc-gate-recheck]="C03 C07"
  [revert-fix-Dd-restored-pause-channel]="C11" [revert-fix-De-restored-empty-rollout-lb]="C11" [revert-fix-Df-dispose-on-conflict]="C17 C06"
@@ -16,10 +17,10 @@ for f in mutants/*.diff; do
   [ -z "$checks" ] && checks=$(echo $name | grep -o '^C[0-9][0-9]')
   [ -z "$checks" ] && { echo -e "$name\t-\tSKIP(no mapping)" >> $out; continue; }
   cd /repo; git diff --quiet || { echo "/repo dirty"; exit 9; }
-  if ! git apply --check /verif/$f 2>/dev/null; then echo -e "$name\t$checks\tDOES-NOT-APPLY" >> /verif/$out; cd /verif; continue; fi
-  git apply /verif/$f
-  if ! GOPROXY=off go build ./... 2>/dev/null; then echo -e "$name\t$checks\tDOES-NOT-BUILD" >> /verif/$out; git checkout -- .; cd /verif; continue; fi
-  cd /verif
+  if ! git apply --check $V/$f 2>/dev/null; then echo -e "$name\t$checks\tDOES-NOT-APPLY" >> $V/$out; cd "$V"; continue; fi
+  git apply $V/$f
+  if ! GOPROXY=off go build ./... 2>/dev/null; then echo -e "$name\t$checks\tDOES-NOT-BUILD" >> $V/$out; git checkout -- .; cd "$V"; continue; fi
+  cd "$V"
   for entry in $checks; do
     c=${entry%%:*}; tier=quick; [ "$entry" != "$c" ] && tier=${entry#*:}
     o=$(timeout 2500 ./check $c --tier $tier --seed ${VERIF_SEED:-1} --no-evidence 2>&1); rc=$?
